@@ -1,3 +1,39 @@
-From TM Require Import Base Frame.
-Theorem C04_placeholder : fc_value (fc_new 1) = 1.
-Proof. reflexivity. Qed.
+(* C04 -- RTU delivers only CRC-valid frames and emits only CRC-correct frames. *)
+From Coq Require Import Lia.
+From TM Require Import Base Frame Pdu Crc RtuCodec Framed FramedProofs RtuProofs.
+
+(* one call of the resynchronising decoder: the buffer is split into the bytes dropped by this call,
+   then (if a frame is handed up) exactly slave :: pdu ++ CRC-16/MODBUS(slave :: pdu) low byte first,
+   then the remaining buffer -- contiguous, in order, nothing lost, nothing invented; never a panic *)
+Theorem C04_delivered_is_valid_slice_req : forall fuel buf dr b' dr' r, bytes_ok buf = true ->
+  decode_loop req_pdu_len fuel buf dr = (b', dr', r) ->
+  exists d, dr' = dr ++ d /\ r <> DPanic /\
+    match r with DSome (s, p) => buf = d ++ rtu_frame s p ++ b' | _ => buf = d ++ b' end.
+Proof. exact (decode_loop_segments req_pdu_len req_pdu_len_nil req_pdu_len_no_panic). Qed.
+Theorem C04_delivered_is_valid_slice_rsp : forall fuel buf dr b' dr' r, bytes_ok buf = true ->
+  decode_loop rsp_pdu_len fuel buf dr = (b', dr', r) ->
+  exists d, dr' = dr ++ d /\ r <> DPanic /\
+    match r with DSome (s, p) => buf = d ++ rtu_frame s p ++ b' | _ => buf = d ++ b' end.
+Proof. exact (decode_loop_segments rsp_pdu_len rsp_pdu_len_nil rsp_pdu_len_no_panic). Qed.
+
+(* a candidate whose CRC field is not the CRC of the bytes before it is never handed up, and the
+   buffer is restored unchanged *)
+Theorem C04_crc_mismatch_not_delivered : forall buf n b' r,
+  frame_decode buf n = (b', r) -> (forall s p, r <> FSome s p) -> b' = buf.
+Proof. exact frame_decode_other. Qed.
+Theorem C04_check_is_crc : forall d c1 c2, c1 < 256 -> c2 < 256 -> check_crc d c1 c2 = true -> [c1; c2] = crc2 d.
+Proof. exact check_crc_true. Qed.
+Theorem C04_wrong_crc_rejected : forall d c1 c2, [c1; c2] <> crc2 d -> c1 < 256 -> c2 < 256 -> check_crc d c1 c2 = false.
+Proof. exact check_crc_false. Qed.
+
+(* every emitted frame is slave :: pdu ++ crc2 (slave :: pdu) and the decoder accepts it *)
+Theorem C04_emitted_frame_accepted : forall s p x, frame_decode (rtu_frame s p ++ x) (len p) = (x, FSome s p).
+Proof. exact frame_decode_frame. Qed.
+
+(* known-answer vectors of CRC-16/MODBUS (Modbus over serial line V1.02 and the suite's vectors) *)
+Example C04_kat1 : crc2 [0x01; 0x03; 0x00; 0x00; 0x00; 0x01] = [0x84; 0x0A].
+Proof. vm_compute. reflexivity. Qed.
+Example C04_kat2 : calc_crc [0x12; 0x34; 0x23; 0x45; 0x34; 0x56; 0x45; 0x67] = 0xE2DB.
+Proof. vm_compute. reflexivity. Qed.
+Example C04_kat3 : crc_reg [0x31; 0x32; 0x33; 0x34; 0x35; 0x36; 0x37; 0x38; 0x39] = 0x4B37.
+Proof. vm_compute. reflexivity. Qed.
